@@ -6,21 +6,24 @@ import Precis.Spec.Rules
 import Precis.Facts.Prof
 import Precis.Lemmas.Utf8
 import Precis.Lemmas.TableStep
+import Precis.Lemmas.SpacesAux
 namespace Precis.C12
-open Precis Precis.Step
+open Precis Precis.Step Precis.SpacesAux
 
 /-- the generated Zs table is General_Category = Zs of UnicodeData 16.0.0, for every code point -/
-theorem zs_table_is_ucd16 (c : Nat) : isSpaceSeparator c = Spec.zs16 c := by
-  sorry
+theorem zs_table_is_ucd16 (c : Nat) : isSpaceSeparator c = Spec.zs16 c :=
+  isSpaceSeparator_eq c
 
 /-- Nickname additional mapping = collapse ∘ strip ∘ (Zs ↦ U+0020), for every string -/
-theorem nick_spaces_eq (s : List Nat) : trimSpaces s = .ok (Spec.specSpaces s) := by
-  sorry
+theorem nick_spaces_eq (s : List Nat) : trimSpaces s = .ok (Spec.specSpaces s) :=
+  trimSpaces_eq s
 
 /-- all non-space characters are kept, in order, whatever their encoded length -/
 theorem nick_spaces_keep (s : List Nat) :
     (Spec.specSpaces s).filter (fun c => !Spec.zs16 c) = s.filter (fun c => !Spec.zs16 c) := by
-  sorry
+  have hq : (fun c => !Spec.zs16 c) 0x20 = false := by simp [zs16_space]
+  unfold Spec.specSpaces
+  rw [filter_collapse _ hq, filter_strip _ hq, filter_mapSpaces]
 
 /-- the result has no leading / trailing space, no two adjacent spaces, and no non-ASCII space -/
 theorem nick_spaces_shape (s : List Nat) :
@@ -28,22 +31,53 @@ theorem nick_spaces_shape (s : List Nat) :
     (∀ i, (h : i + 1 < (Spec.specSpaces s).length) →
         ¬ ((Spec.specSpaces s)[i] = 0x20 ∧ (Spec.specSpaces s)[i + 1] = 0x20)) ∧
     (∀ c ∈ Spec.specSpaces s, Spec.zs16 c = true → c = 0x20) := by
-  sorry
+  obtain ⟨h1, h2, h3, h4⟩ := specSpaces_shape s
+  exact ⟨h1, h2, fun i h => noAdj_getElem _ h3 i h, h4⟩
 
 theorem nick_spaces_idem (s : List Nat) : Spec.specSpaces (Spec.specSpaces s) = Spec.specSpaces s := by
-  sorry
+  obtain ⟨h1, h2, h3, h4⟩ := specSpaces_shape s
+  exact specSpaces_fixed _ h1 h2 h3 h4
 
 /-- OpaqueString additional mapping = map (non-ASCII Zs ↦ U+0020), nothing else changes -/
 theorem opaque_map_eq (s : List Nat) : opaqueAdditionalMappingRule s = .ok (Spec.specOpaqueMap s) := by
-  sorry
+  have hf : ∀ c, (if isNonAsciiSpace c = true then 0x20 else c) = opaqueF c := by
+    intro c; simp only [opaqueF, isNonAsciiSpace_eq]
+  unfold opaqueAdditionalMappingRule
+  cases hfind : findByte isNonAsciiSpace s with
+  | none =>
+    rw [findByte_none_iff] at hfind
+    simp only
+    rw [specOpaqueMap_eq, map_opaqueF_of_none s (fun c hc => by rw [← isNonAsciiSpace_eq]; exact hfind c hc)]
+  | some pos =>
+    obtain ⟨h1, h2⟩ := slice_at_find _ _ _ hfind
+    simp only [h1, h2]
+    rw [specOpaqueMap_eq]
+    conv => rhs; rw [← List.takeWhile_append_dropWhile (p := fun c => !isNonAsciiSpace c) (l := s)]
+    rw [List.map_append, map_opaqueF_of_none (s.takeWhile fun c => !isNonAsciiSpace c)]
+    · simp only [hf]
+    · intro c hc
+      have hall := List.all_takeWhile (p := fun c => !isNonAsciiSpace c) (l := s)
+      have := List.all_eq_true.mp hall c hc
+      rw [← isNonAsciiSpace_eq]; simpa using this
 
 theorem opaque_map_preserves (s : List Nat) (i : Nat) (h : i < s.length)
     (hn : ¬ (Spec.zs16 s[i] = true ∧ s[i] ≠ 0x20)) :
     ∃ h' : i < (Spec.specOpaqueMap s).length, (Spec.specOpaqueMap s)[i] = s[i] := by
-  sorry
+  refine ⟨by simpa [Spec.specOpaqueMap] using h, ?_⟩
+  simp only [Spec.specOpaqueMap, List.getElem_map]
+  rw [if_neg]
+  intro hc
+  apply hn
+  simpa using hc
 
 theorem opaque_map_idem (s : List Nat) : Spec.specOpaqueMap (Spec.specOpaqueMap s) = Spec.specOpaqueMap s := by
-  sorry
+  simp only [specOpaqueMap_eq, List.map_map]
+  apply List.map_congr_left
+  intro c _
+  simp only [Function.comp, opaqueF]
+  split
+  · simp
+  · rfl
 
 /-- neither rule can panic (no slice inside a multi-byte character) -/
 theorem space_rules_total (s : List Nat) :
@@ -52,6 +86,6 @@ theorem space_rules_total (s : List Nat) :
 
 /-- non-vacuity: interior non-ASCII space after a 2-byte character, trailing space after a 3-byte one -/
 example : trimSpaces [0xE9, 0xA0, 0x65E5, 0x20] = .ok [0xE9, 0x20, 0x65E5] := by
-  sorry
+  rw [nick_spaces_eq]; decide +kernel
 
 end Precis.C12
